@@ -178,39 +178,20 @@ func init() {
 		return nil
 	}
 	intrinsics[vrt+"Observe"] = func(e *Engine, fr *frame, fn *ssa.Function, args []Value) Value {
-		s := cstr(args[0])
+		o := obsRec{label: cstr(args[0])}
 		for _, v := range args[1].(Slice).V {
-			t := v.(*Term)
-			if t.IsConst() {
-				s += " " + strconv.FormatInt(t.SVal(), 10)
-			} else {
-				s += " ?"
-			}
+			o.terms = append(o.terms, v.(*Term))
 		}
-		e.observes = append(e.observes, s)
+		e.obs = append(e.obs, o)
 		return nil
 	}
 	intrinsics[vrt+"ObserveBool"] = func(e *Engine, fr *frame, fn *ssa.Function, args []Value) Value {
-		t := args[1].(*Term)
-		s := cstr(args[0])
-		switch {
-		case t.IsTrue():
-			s += " 1"
-		case t.IsFalse():
-			s += " 0"
-		default:
-			s += " ?"
-		}
-		e.observes = append(e.observes, s)
+		e.obs = append(e.obs, obsRec{label: cstr(args[0]), terms: []*Term{args[1].(*Term)}})
 		return nil
 	}
 	intrinsics[vrt+"ObserveStr"] = func(e *Engine, fr *frame, fn *ssa.Function, args []Value) Value {
 		s := args[1].(Str)
-		if s.IsSym() {
-			e.observes = append(e.observes, cstr(args[0])+" ?")
-		} else {
-			e.observes = append(e.observes, cstr(args[0])+" "+strconv.Quote(s.S))
-		}
+		e.obs = append(e.obs, obsRec{label: cstr(args[0]), str: &s})
 		return nil
 	}
 	intrinsics[vrt+"Reach"] = func(e *Engine, fr *frame, fn *ssa.Function, args []Value) Value {
